@@ -250,11 +250,15 @@ class NPShim:
         return _np.array(obj, *a, **k)
 
     def max(self, a, *x, **k):
+        if isinstance(a, SymReal):
+            return a
         if has_sym(a):
             return _obj(a).max()
         return _np.max(a, *x, **k)
 
     def min(self, a, *x, **k):
+        if isinstance(a, SymReal):
+            return a
         if has_sym(a):
             return _obj(a).min()
         return _np.min(a, *x, **k)
@@ -263,6 +267,8 @@ class NPShim:
     amin = min
 
     def average(self, a, *x, **k):
+        if isinstance(a, SymReal):
+            return a
         if has_sym(a) and not x and not k:
             a = _obj(a)
             return sum(a[1:], a[0]) / len(a)
